@@ -88,6 +88,28 @@ PROPS = {
 }
 
 
+AUDIT_TEMPLATE = """import SSJ.Props.PID
+open Lean Elab Command in
+run_cmd liftCoreM do
+  let env ← getEnv
+  let mods := env.header.moduleNames
+  let mut out : Array String := #[]
+  for (n, ci) in env.constants.map₁.toList do
+    if (`SSJ.Props.PID).isPrefixOf n && !n.isInternal then
+      match ci with
+      | .thmInfo _ =>
+        match env.getModuleIdxFor? n with
+        | some idx =>
+          let m := mods[idx.toNat]!
+          if (`SSJ.Props).isPrefixOf m then
+            let ax ← Lean.collectAxioms n
+            out := out.push s!"THM {n} MOD {m} AXIOMS {ax.toList}"
+        | none => pure ()
+      | _ => pure ()
+  for l in out.qsort (· < ·) do IO.println l
+"""
+
+
 def sh(cmd, cwd=None, timeout=3600, env=None):
     p = subprocess.run(cmd, cwd=cwd, shell=isinstance(cmd, str), stdout=subprocess.PIPE, stderr=subprocess.STDOUT, timeout=timeout, env=env)
     return p.returncode, p.stdout.decode('utf-8', 'replace')
@@ -168,10 +190,9 @@ def build_and_audit(pid, tier, log):
     key = tree_hash()
     cache_file = os.path.join(cache_dir, 'build-%s-%s.json' % (pid, key))
     props_file = os.path.join(LEAN, 'SSJ', 'Props', pid + '.lean')
-    res['theorems'] = theorems_of(props_file) if os.path.exists(props_file) else []
     if os.path.exists(cache_file) and tier == 'quick' and os.path.exists(os.path.join(LEAN, '.lake', 'build', 'bin', 'driver')):
         c = json.load(open(cache_file))
-        res.update({k: c[k] for k in ('build_ok', 'axioms', 'broken_build')})
+        res.update({k: c[k] for k in ('build_ok', 'axioms', 'broken_build', 'theorems')})
         res['broken'] += c['broken_build']
         res['cached'] = True
         return res
@@ -198,21 +219,18 @@ def build_and_audit(pid, tier, log):
             res['build_ok'] = True
             audit = os.path.join(cache_dir, 'Audit_%s.lean' % pid)
             with open(audit, 'w') as fh:
-                fh.write('import SSJ.Props.%s\n' % pid)
-                for th in res['theorems']:
-                    fh.write('#print axioms SSJ.Props.%s.%s\n' % (pid, th))
+                fh.write(AUDIT_TEMPLATE.replace('PID', pid))
             rc, out = sh(['lake', 'env', 'lean', audit], cwd=LEAN, timeout=900)
-            for m in re.finditer(r"'([^']+)' depends on axioms: \[([^\]]*)\]", out.replace('\n', ' ')):
-                res['axioms'][m.group(1)] = [a.strip() for a in m.group(2).split(',') if a.strip()]
-            for m in re.finditer(r"'([^']+)' does not depend on any axioms", out):
-                res['axioms'][m.group(1)] = []
+            res['theorems'] = []
+            for m in re.finditer(r'^THM (\S+) MOD (\S+) AXIOMS \[([^\]]*)\]', out, flags=re.M):
+                res['theorems'].append(m.group(1))
+                res['axioms'][m.group(1)] = [a.strip() for a in m.group(3).split(',') if a.strip()]
             if rc != 0:
                 broken_build.append({'kind': 'axiom-audit', 'detail': out[-800:]})
-            for th in res['theorems']:
-                full = 'SSJ.Props.%s.%s' % (pid, th)
-                if full not in res['axioms']:
-                    broken_build.append({'kind': 'axiom-audit', 'detail': 'no axiom report for ' + full})
-                elif not set(res['axioms'][full]) <= ALLOWED_AXIOMS:
+            if not res['theorems']:
+                broken_build.append({'kind': 'axiom-audit', 'detail': 'no theorem found in namespace SSJ.Props.' + pid})
+            for full in res['theorems']:
+                if not set(res['axioms'][full]) <= ALLOWED_AXIOMS:
                     broken_build.append({'kind': 'axiom-audit', 'detail': '%s uses %s' % (full, res['axioms'][full])})
             if tier == 'thorough':
                 t0 = time.time()
@@ -226,7 +244,7 @@ def build_and_audit(pid, tier, log):
         broken_build.append({'kind': 'forbidden-token', 'detail': '; '.join(bad[:5])})
     res['broken'] += broken_build
     res['broken_build'] = broken_build
-    json.dump({'build_ok': res['build_ok'], 'axioms': res['axioms'], 'broken_build': broken_build}, open(cache_file, 'w'))
+    json.dump({'build_ok': res['build_ok'], 'axioms': res['axioms'], 'broken_build': broken_build, 'theorems': res['theorems']}, open(cache_file, 'w'))
     return res
 
 
@@ -609,7 +627,7 @@ def main():
         discharged = n_th if b['build_ok'] and not any(x['kind'] in ('proof-build', 'axiom-audit', 'forbidden-token', 'leanchecker') for x in b['broken']) else 0
         distinct_nontrivial = sum(min(p['distinct'], p['nontrivial']) for p in per_suite.values())
         samples = [{'suite': n2, 'request': p['sample']} for n2, p in per_suite.items() if p['sample'] is not None][:3]
-        samples += [{'theorem': 'SSJ.Props.%s.%s' % (pid, th), 'axioms': b['axioms'].get('SSJ.Props.%s.%s' % (pid, th))} for th in b['theorems'][:40]]
+        samples += [{'theorem': th, 'axioms': b['axioms'].get(th)} for th in b['theorems'][:40]]
         ev = {
             'property_id': pid, 'tier': tier, 'seed': seed, 'level': 'proof',
             'coverage': {
